@@ -17,6 +17,7 @@ import (
 	"pgregory.net/rapid"
 
 	"github.com/TheManticoreProject/Manticore/network/netbios/nbt"
+	"github.com/TheManticoreProject/Manticore/network/smb/smb_v10/transport"
 
 	"manticoreverif/vf"
 )
@@ -1323,4 +1324,131 @@ func TestSendThenClose(t *testing.T) {
 	vf.Rapid(s, vf.N(12, 120), func(t *rapid.T) closeCase {
 		return closeCase{Frames: rapid.IntRange(2, 10).Draw(t, "frames"), Len: rapid.SampledFrom([]int{0x1FFFF, 0x10000, 70000, 0x1FFFF}).Draw(t, "len"), PaceMs: rapid.IntRange(1, 12).Draw(t, "pace")}
 	}, checkSendThenClose, func(c closeCase) bool { return c.Frames*c.Len > 300000 })
+}
+
+// ---- transports obtained from the factory are transports of their own ---------------------------------------------
+//
+// transport.NewTransport is how the SMB client obtains its session transport (anchor of the property). Several
+// transports are obtained from it (the type spelled in any letter case), each is connected to a loopback listener
+// of its own, and payloads tagged per transport travel in both directions, interleaved: what is sent through
+// transport k arrives at peer k and nowhere else, and transport k receives what peer k sent. A factory that hands
+// out one shared object sends every frame to the peer connected last.
+
+type factoryCase struct {
+	Names []string `json:"transport_types"` // one transport per entry
+	Lens  []int    `json:"payload_lengths"`
+	Order []int    `json:"send_order"` // indices into Names: the order in which the transports send
+}
+
+func checkFactory(c factoryCase) []vf.Finding {
+	type peer struct {
+		ln   net.Listener
+		conn net.Conn
+		side *nbt.NBTTransport // the peer's end, one transport for the life of the connection
+		tr   transport.Transport
+	}
+	peers := make([]*peer, len(c.Names))
+	defer func() {
+		for _, p := range peers {
+			if p == nil {
+				continue
+			}
+			if p.tr != nil {
+				p.tr.Close()
+			}
+			if p.conn != nil {
+				p.conn.Close()
+			}
+			if p.ln != nil {
+				p.ln.Close()
+			}
+		}
+	}()
+	for k, name := range c.Names {
+		ln, err := net.Listen("tcp", "127.0.0.1:0")
+		if err != nil {
+			return []vf.Finding{vf.F("harness", "cannot-listen", "%v", err)}
+		}
+		p := &peer{ln: ln}
+		peers[k] = p
+		p.tr = transport.NewTransport(name)
+		if p.tr == nil {
+			return []vf.Finding{vf.F("transport.NewTransport", "known-type-refused", "NewTransport(%q) = nil", name)}
+		}
+		addr := ln.Addr().(*net.TCPAddr)
+		acc := make(chan net.Conn, 1)
+		go func() {
+			conn, _ := ln.Accept()
+			acc <- conn
+		}()
+		if err := p.tr.Connect(addr.IP, addr.Port); err != nil {
+			return []vf.Finding{vf.F("harness", "cannot-connect", "%v", err)}
+		}
+		select {
+		case p.conn = <-acc:
+		case <-time.After(10 * time.Second):
+			return []vf.Finding{vf.F("harness", "cannot-accept", "no connection within 10 s")}
+		}
+		if p.conn == nil {
+			return []vf.Finding{vf.F("harness", "cannot-accept", "accept failed")}
+		}
+		p.side = nbt.NewNBTTransportFromConn(p.conn)
+	}
+	// transport k -> peer k
+	for r, k := range c.Order {
+		n := c.Lens[r%len(c.Lens)]
+		pl := payload(n, byte(0x40+k))
+		if _, err := peers[k].tr.Send(append([]byte{}, pl...)); err != nil {
+			return []vf.Finding{vf.F("Transport.Send", "frameable-payload-refused", "transport %d, len %d: %v", k, n, err)}
+		}
+		peers[k].conn.SetReadDeadline(time.Now().Add(10 * time.Second))
+		got, err := peers[k].side.Receive()
+		if err != nil || !bytes.Equal(got, pl) {
+			return []vf.Finding{vf.F("transport.NewTransport", "frame-not-delivered-to-own-peer", "send %d: transport %d of %d sent %d bytes; its own peer received %d bytes (err %v)", r+1, k+1, len(peers), len(pl), len(got), err)}
+		}
+	}
+	// peer k -> transport k: all peers write first, then every transport reads
+	for k, p := range peers {
+		pl := payload(c.Lens[k%len(c.Lens)], byte(0x80+k))
+		if _, err := p.side.Send(pl); err != nil {
+			return []vf.Finding{vf.F("harness", "peer-cannot-send", "%v", err)}
+		}
+	}
+	for k, p := range peers {
+		want := payload(c.Lens[k%len(c.Lens)], byte(0x80+k))
+		type res struct {
+			got []byte
+			err error
+		}
+		ch := make(chan res, 1)
+		go func() {
+			got, err := p.tr.Receive()
+			ch <- res{got, err}
+		}()
+		select {
+		case r := <-ch:
+			if r.err != nil || !bytes.Equal(r.got, want) {
+				return []vf.Finding{vf.F("transport.NewTransport", "frame-of-another-peer-received", "transport %d of %d: its peer sent %d bytes (tag %#x); Receive gave %d bytes (first byte %x, err %v)", k+1, len(peers), len(want), 0x80+k, len(r.got), r.got[:min(len(r.got), 1)], r.err)}
+			}
+		case <-time.After(10 * time.Second):
+			return []vf.Finding{vf.F("transport.NewTransport", "frame-not-delivered-to-own-transport", "transport %d of %d: its peer sent %d bytes, Receive did not return within 10 s", k+1, len(peers), len(want))}
+		}
+	}
+	return nil
+}
+
+func TestFactoryTransports(t *testing.T) {
+	s := vf.Begin(t, P, "factory-transports-independent")
+	vf.Rapid(s, vf.N(60, 800), func(t *rapid.T) factoryCase {
+		n := rapid.IntRange(2, 4).Draw(t, "transports")
+		var c factoryCase
+		for i := 0; i < n; i++ {
+			c.Names = append(c.Names, rapid.SampledFrom([]string{"nbt", "nbt", "NBT", "Nbt"}).Draw(t, "type"))
+		}
+		c.Lens = rapid.SliceOfN(rapid.OneOf(rapid.IntRange(0, 600), rapid.SampledFrom([]int{0, 1, 4096, 4097, 65535, 65536, 70000})), 1, 4).Draw(t, "lens")
+		for i, m := 0, rapid.IntRange(n, 3*n).Draw(t, "sends"); i < m; i++ {
+			c.Order = append(c.Order, rapid.IntRange(0, n-1).Draw(t, "sender"))
+		}
+		return c
+	}, checkFactory, func(c factoryCase) bool { return len(c.Names) >= 2 })
 }
